@@ -49,6 +49,7 @@ fn main() {
         "c09-replay" => c09::replay(rest),
         "c09-stress" => c09::stress(rest),
         "c09-request" => c09::request(rest),
+        "c09-salt" => c09::salt_stress(rest),
         "c11-replay" => c11::replay(rest),
         "c11-record" => c11::record(rest),
         other => Err(anyhow::anyhow!("unknown subcommand {other}")),
